@@ -10,13 +10,16 @@ PROPS["C13"] = dict(
     technique="exhaustive execution of every (class, requested type) pair under ASan/UBSan with dynamic_cast as oracle",
     level_text="Every (K,T) pair of the finite configuration space is executed against the real find_pdu/rfind_pdu/tins_cast/matches_flag code "
                "(object alone and inside a chain) and compared with dynamic_cast; the class list is re-derived from the current headers on every run, "
-               "so a new or edited class is swept automatically. Exhaustive for default-constructed objects; type flags do not depend on field values.",
+               "so a new or edited class is swept automatically. Exhaustive for default-constructed objects. A second phase applies the same rule to every layer of objects in other "
+               "states (each class parsed from its own serialization with every value of the first four octets, Dot11 type/subtype setters, API-built packets, parsed seeds/mutations), "
+               "because nothing but convention keeps pdu_type()/matches_flag() independent of field values.",
     level_note="Trusted: the header scanner finds every PDU class (classes it cannot construct make the run fail, not pass); RTTI; gcc UBSan vptr check as a second oracle.",
-    phases=[dict(name="pairs", harness="c13.cpp", flavor="asan", cases=dict(quick=160, thorough=160), watchdog=120)],
+    phases=[dict(name="pairs", harness="c13.cpp", flavor="asan", cases=dict(quick=160, thorough=160), watchdog=120),
+            dict(name="objects", harness="c13.cpp", flavor="asan", mode="objects", cases=dict(quick=6000, thorough=300000), watchdog=120)],
     rule="every (K,T): K = each concrete PDU class found in the current headers (default-constructed; RawPDU/PPI from minimal "
          "arguments) and PDUCacher<K>, T = each class with a pdu_flag and PDUCacher<X> of each; on the object alone and inside EthernetII/K; a pair is one "
          "distinct case; all pairs are enumerated (finite space, exhaustive)",
-    floors=dict(any=dict(pairs=10000, objects=100, own_class_checks=100, distinct=10000)),
+    floors=dict(any=dict(pairs=10000, objects=100, own_class_checks=100, distinct=10000, first_octet_objects=20000, dot11_type_subtype_objects=1000, built_objects=1000, parsed_objects=5000, layers_checked=50000)),
     assumptions=["class list is produced by scanning the preprocessed headers of the current tree (build/gen_describe.py)",
                  "dynamic_cast is the ground truth for 'really is a T'",
                  "the real find_pdu/tins_cast are executed only when the flag predicate says the cast is valid (otherwise it would be UB); "
